@@ -84,8 +84,8 @@ func VH_C09_Crash() {
 	s := New(conf)
 	before := vhSnapshot(s, repos, digs, tags)
 	pre := vos.Clone()
-	op := vh.Choice("op", 9)
-	names := []string{"first-upload-new-repo", "manifest-put-new-tag", "artifact-put", "tag-move", "delete-tag", "delete-digest", "blob-delete", "upload-cancel", "collection"}
+	op := vh.Choice("op", 11)
+	names := []string{"first-upload-new-repo", "manifest-put-new-tag", "artifact-put", "tag-move", "delete-tag", "delete-digest", "blob-delete", "upload-cancel", "collection", "re-upload-of-referenced-layer-by-session", "re-push-of-tagged-manifest"}
 	vh.Tag("op", names[op])
 	run := func(s *Server) {
 		switch op {
@@ -108,6 +108,13 @@ func VH_C09_Crash() {
 			vhDo(s, "DELETE", "/v2/a/blobs/uploads/"+vhSessionID(r), nil, nil, nil)
 		case 8:
 			vhTick()
+		case 9:
+			// the layer of the tagged images is uploaded again through a session
+			r := vhDo(s, "POST", "/v2/a/blobs/uploads/", nil, nil, nil)
+			vhDo(s, "PUT", "/v2/a/blobs/uploads/"+vhSessionID(r), vhQ("state", vhStateToken(0), "digest", w.dLayer.String()), nil, w.layer)
+		case 10:
+			// the tagged manifest is pushed again under its tag
+			vhPutManifest(s, "a", "t1", types.MediaTypeOCI1Manifest, w.img1)
 		}
 	}
 	k := vh.Choice("crashAt", vh.Param("CRASHPOINTS", 14))
